@@ -19,6 +19,7 @@ import (
 	"testing"
 	"time"
 
+	"github.com/nspcc-dev/bbolt"
 	iec "github.com/nspcc-dev/neofs-node/internal/ec"
 	"github.com/nspcc-dev/neofs-node/internal/verifkit"
 	clientcore "github.com/nspcc-dev/neofs-node/pkg/core/client"
@@ -27,6 +28,7 @@ import (
 	"github.com/nspcc-dev/neofs-node/pkg/local_object_storage/engine"
 	meta "github.com/nspcc-dev/neofs-node/pkg/local_object_storage/metabase"
 	"github.com/nspcc-dev/neofs-node/pkg/local_object_storage/shard"
+	"github.com/nspcc-dev/neofs-node/pkg/local_object_storage/shard/mode"
 	putsvc "github.com/nspcc-dev/neofs-node/pkg/services/object/put"
 	objutil "github.com/nspcc-dev/neofs-node/pkg/services/object/util"
 	"github.com/nspcc-dev/neofs-node/pkg/services/replicator"
@@ -93,6 +95,12 @@ type vf26Case struct {
 	Shards     int      `json:"shards"`
 	OtherParts string   `json:"other_parts"`
 	Flavor     int      `json:"error_flavor"`
+	// multi-shard part only: size of the real engine, positions of the shards holding a copy
+	// in the engine's own order of preference for the object (0 = most preferred), how the
+	// first copy was written
+	NShards     int    `json:"engine_shards,omitempty"`
+	HolderRanks []int  `json:"holder_shard_ranks,omitempty"`
+	PutMode     string `json:"put_mode,omitempty"`
 
 	typ     object.Type
 	st      [vf26MaxID]vf26St
@@ -145,6 +153,9 @@ type vf26World struct {
 	deletes   []vf26Del
 	redundant [][]string
 	localPuts int
+	// multi-shard part: the object is gone from the real engine (after GC) although the
+	// policer never called Delete - what it called instead
+	lostVia string
 }
 
 type vf26Harness struct {
@@ -190,22 +201,30 @@ type vf26Epoch struct{}
 
 func (vf26Epoch) CurrentEpoch() uint64 { return 0 }
 
-func vf26NewEngine(t *testing.T) *engine.StorageEngine {
+func vf26NewEngine(t *testing.T, nShards int) *engine.StorageEngine {
 	dir := t.TempDir()
 	e := engine.New(engine.WithLogger(zap.NewNop()))
-	_, err := e.AddShard(
-		shard.WithLogger(zap.NewNop()),
-		shard.WithBlobstor(fstree.New(fstree.WithPath(filepath.Join(dir, "fstree")), fstree.WithDepth(1), fstree.WithNoSync(true))),
-		shard.WithMetaBaseOptions(
-			meta.WithPath(filepath.Join(dir, "meta")),
-			meta.WithPermissions(0o700),
-			meta.WithEpochState(vf26Epoch{}),
-			meta.WithLogger(zap.NewNop()),
-			meta.WithMaxBatchDelay(time.Microsecond),
-		),
-	)
-	if err != nil {
-		t.Fatalf("harness: add shard: %v", err)
+	for i := 0; i < nShards; i++ {
+		sfx := strconv.Itoa(i)
+		opts := []shard.Option{
+			shard.WithLogger(zap.NewNop()),
+			shard.WithBlobstor(fstree.New(fstree.WithPath(filepath.Join(dir, "fstree"+sfx)), fstree.WithDepth(1), fstree.WithNoSync(true))),
+			shard.WithMetaBaseOptions(
+				meta.WithPath(filepath.Join(dir, "meta"+sfx)),
+				meta.WithPermissions(0o700),
+				meta.WithEpochState(vf26Epoch{}),
+				meta.WithLogger(zap.NewNop()),
+				meta.WithMaxBatchDelay(time.Microsecond),
+				meta.WithBoltDBOptions(&bbolt.Options{NoSync: true, Timeout: time.Second}),
+			),
+		}
+		if nShards > 1 {
+			// the shard's own GC timer must not take part: the monitor runs GC passes itself
+			opts = append(opts, shard.WithGCRemoverSleepInterval(24*time.Hour))
+		}
+		if _, err := e.AddShard(opts...); err != nil {
+			t.Fatalf("harness: add shard: %v", err)
+		}
 	}
 	if err := e.Init(); err != nil {
 		t.Fatalf("harness: engine init: %v", err)
@@ -214,7 +233,7 @@ func vf26NewEngine(t *testing.T) *engine.StorageEngine {
 	return e
 }
 
-func vf26NewHarness(t *testing.T, r *verifkit.Run) *vf26Harness {
+func vf26NewHarness(t *testing.T, r *verifkit.Run, nShards int) *vf26Harness {
 	h := &vf26Harness{r: r, t: t, objs: map[object.Type]oid.Address{}, ecSets: map[string]*vf26ECSet{}}
 	h.rng = r.Rand("setup", 0)
 	h.signer = neofscryptotest.Signer()
@@ -226,9 +245,12 @@ func vf26NewHarness(t *testing.T, r *verifkit.Run) *vf26Harness {
 		h.mnodes[i] = h.nodes[i]
 		h.mnodes[i].SetMaintenance()
 	}
-	h.eng = vf26NewEngine(t)
+	h.eng = vf26NewEngine(t, nShards)
 	owner := verifkit.RandUser(h.rng)
 	for _, typ := range []object.Type{object.TypeRegular, object.TypeTombstone, object.TypeLock, object.TypeLink} {
+		if nShards > 1 {
+			break // the multi-shard part stores a fresh real object per case
+		}
 		// The stored bytes are only what the replicator ships; the policer learns the type
 		// from the listing entry, so a plain object is stored under every address.
 		o := verifkit.NewObject(h.rng, h.cnr, owner, 32)
@@ -256,6 +278,9 @@ func vf26NewHarness(t *testing.T, r *verifkit.Run) *vf26Harness {
 		WithHeadTimeout(time.Minute),
 	)
 	h.p.localStorage = &vf26Local{h: h}
+	if nShards > 1 {
+		h.p.localStorage = &vf26ShardLocal{StorageEngine: h.eng, h: h}
+	}
 	h.p.apiConns = &vf26Conns{h: h}
 	h.p.replicator = &vf26Repl{h: h, real: repl}
 	return h
@@ -487,6 +512,29 @@ func (l *vf26Local) GetRange(_ context.Context, a oid.Address, off, ln uint64) (
 	return nil, apistatus.ErrObjectNotFound
 }
 
+// vf26ShardLocal is the policer's local storage of the multi-shard part: the REAL
+// StorageEngine; Delete and DeleteRedundantCopies are recorded and then executed by it.
+type vf26ShardLocal struct {
+	*engine.StorageEngine
+	h *vf26Harness
+}
+
+func (l *vf26ShardLocal) Delete(ctx context.Context, a oid.Address, m engine.GarbageMark) error {
+	w := l.h.w
+	w.mu.Lock()
+	w.deletes = append(w.deletes, vf26Del{a, m})
+	w.mu.Unlock()
+	return l.StorageEngine.Delete(ctx, a, m)
+}
+
+func (l *vf26ShardLocal) DeleteRedundantCopies(ctx context.Context, a oid.Address, ids []string) error {
+	w := l.h.w
+	w.mu.Lock()
+	w.redundant = append(w.redundant, append([]string{a.String()}, ids...))
+	w.mu.Unlock()
+	return l.StorageEngine.DeleteRedundantCopies(ctx, a, ids)
+}
+
 // vf26Repl forwards every task to the REAL replicator and records what it reports.
 type vf26Repl struct {
 	h    *vf26Harness
@@ -673,7 +721,8 @@ func (h *vf26Harness) judge(c *vf26Case, w *vf26World, obj objectcore.AddressWit
 	}
 	vio := func(key, what string) {
 		c.finish()
-		r.Violation(key, what, map[string]any{"case": c, "head_ok": w.headOK, "repl_ok": w.replOK, "submitted": w.submitted})
+		r.Violation(key, what, map[string]any{"case": c, "head_ok": w.headOK, "repl_ok": w.replOK, "submitted": w.submitted,
+			"delete_calls": len(w.deletes), "delete_redundant_copies_calls": w.redundant})
 	}
 
 	// replicator reports vs what the remote end saw
@@ -711,7 +760,17 @@ func (h *vf26Harness) judge(c *vf26Case, w *vf26World, obj objectcore.AddressWit
 		r.Count("removals_judged", len(w.deletes))
 		r.Seen("garbage_marks_seen", strconv.Itoa(int(w.deletes[0].mark)))
 	}
-	for _, d := range w.deletes {
+	// A removal is a local Delete call or - multi-shard part - the object being gone from
+	// the node's real engine after the policer's call: for the node it is the same outcome.
+	removals := w.deletes
+	pfx, how := "", ""
+	if w.lostVia != "" {
+		removals = append(removals[:len(removals):len(removals)], vf26Del{addr: obj.Address})
+		pfx = "no-local-copy-left-after-" + w.lostVia + "|"
+		how = fmt.Sprintf(" (no Delete call: the object, held by shards at positions %v of %d in the engine's order of preference, is gone from every shard after %s and GC)", c.HolderRanks, c.NShards, w.lostVia)
+		r.Count("removals_judged", 1)
+	}
+	for _, d := range removals {
 		if d.addr != obj.Address {
 			vio("delete-foreign-address", fmt.Sprintf("Delete(%s) while checking %s", d.addr, obj.Address))
 			continue
@@ -722,7 +781,7 @@ func (h *vf26Harness) judge(c *vf26Case, w *vf26World, obj objectcore.AddressWit
 		}
 		if (c.typ == object.TypeLock || c.typ == object.TypeLink) && localListed {
 			path = "lock-link"
-			vio("lock-link-removed-from-container-node|"+c.typ.String()+"|"+c.Kind, c.typ.String()+" object removed from a node listed by the container policy")
+			vio(pfx+"lock-link-removed-from-container-node|"+c.typ.String()+"|"+c.Kind, c.typ.String()+" object removed from a node listed by the container policy"+how)
 			continue
 		}
 		switch {
@@ -733,7 +792,7 @@ func (h *vf26Harness) judge(c *vf26Case, w *vf26World, obj objectcore.AddressWit
 				path = "ec-part-outside"
 			}
 			if confirmed(l) < 1 {
-				vio(path+"|"+reason([][]int{l}, 1), fmt.Sprintf("EC part removed with 0 confirmed holders in its rule's list %v", l))
+				vio(pfx+path+"|"+reason([][]int{l}, 1), fmt.Sprintf("EC part removed with 0 confirmed holders in its rule's list %v", l)+how)
 			}
 		default:
 			listed := false
@@ -750,8 +809,8 @@ func (h *vf26Harness) judge(c *vf26Case, w *vf26World, obj objectcore.AddressWit
 				listed = true
 				path = "in-container"
 				if got := confirmed(l); got < need {
-					vio("in-container|"+reason([][]int{l}, need-got)+"|"+cand,
-						fmt.Sprintf("local copy removed: list %d %v requires %d confirmed other holders, %d confirmed", i, l, need, got))
+					vio(pfx+"in-container|"+reason([][]int{l}, need-got)+"|"+cand,
+						fmt.Sprintf("local copy removed: list %d %v requires %d confirmed other holders, %d confirmed", i, l, need, got)+how)
 				}
 			}
 			if !listed {
@@ -765,7 +824,7 @@ func (h *vf26Harness) judge(c *vf26Case, w *vf26World, obj objectcore.AddressWit
 					got += confirmed(l)
 				}
 				if got < 1 {
-					vio("outside-container|"+reason(all, 1), "local copy of a node outside the container removed with 0 confirmed holders")
+					vio(pfx+"outside-container|"+reason(all, 1), "local copy of a node outside the container removed with 0 confirmed holders"+how)
 				}
 			}
 		}
@@ -781,7 +840,7 @@ func (h *vf26Harness) judge(c *vf26Case, w *vf26World, obj objectcore.AddressWit
 		}
 	}
 	r.Distinct(vf26Sig(c))
-	if len(w.deletes) > 0 && (c.Kind == "rep2" || c.Kind == "mixed" || isEC) {
+	if (len(w.deletes) > 0 && (c.Kind == "rep2" || c.Kind == "mixed" || isEC)) || (c.NShards > 0 && len(c.HolderRanks) > 1 && c.HolderRanks[0] > 0) {
 		c.finish()
 		r.Sample(map[string]any{"case": c, "removed": true, "path": path})
 	}
@@ -789,7 +848,8 @@ func (h *vf26Harness) judge(c *vf26Case, w *vf26World, obj objectcore.AddressWit
 
 func vf26Sig(c *vf26Case) string {
 	var b strings.Builder
-	fmt.Fprintf(&b, "%s|%d|%v|%v|%v|%d|%d|%v|%d|%s|", c.Kind, c.typ, c.Lists, c.Rep, c.ecRules, c.ECRuleIdx, c.ECPartIdx, c.InNetmap, c.Shards, c.OtherParts)
+	fmt.Fprintf(&b, "%s|%d|%v|%v|%v|%d|%d|%v|%d|%s|%d%v%s|", c.Kind, c.typ, c.Lists, c.Rep, c.ecRules, c.ECRuleIdx, c.ECPartIdx, c.InNetmap, c.Shards, c.OtherParts,
+		c.NShards, c.HolderRanks, c.PutMode)
 	for _, l := range c.Lists {
 		for _, id := range l {
 			if id != 0 {
@@ -895,7 +955,10 @@ func (h *vf26Harness) enumEC1(n int) {
 
 // seeded placements with two rules (REP+REP, EC+EC, REP+EC) whose lists share nodes.
 func (h *vf26Harness) randomTwoRules(idx int) {
-	rng := h.r.Rand("two-rules", idx)
+	h.run(vf26GenTwoRules(h.r.Rand("two-rules", idx)))
+}
+
+func vf26GenTwoRules(rng *rand.Rand) *vf26Case {
 	c := &vf26Case{ECRuleIdx: -1, ECPartIdx: -1, InNetmap: rng.IntN(8) != 0, Shards: 1 + rng.IntN(3)/2, Flavor: rng.IntN(6)}
 	universe := 3 + rng.IntN(5) // ids 0..universe-1 (0 = local)
 	if universe > vf26MaxID {
@@ -973,7 +1036,7 @@ func (h *vf26Harness) randomTwoRules(idx int) {
 			c.typ = vf26Types[rng.IntN(len(vf26Types))]
 		}
 	}
-	h.run(c)
+	return c
 }
 
 // seeded EC-only container with non-part system objects (TOMBSTONE/LOCK/LINK broadcast).
@@ -1024,7 +1087,7 @@ func TestVerif_C26(t *testing.T) {
 	r.Assume("remote nodes, network map, local storage and the API client are in-process fakes; the policer (check.go, ec.go) and the replicator (process.go) with the remote sender are the real code")
 	r.Assume("objects consistent with the container policy only (no missing container, no EC part with an index outside the policy, no whole REGULAR object in an EC-only container)")
 	r.Assume("a node flagged MAINTENANCE in the network map answers NODE_UNDER_MAINTENANCE when contacted")
-	h := vf26NewHarness(t, r)
+	h := vf26NewHarness(t, r, 1)
 	for n := 1; n <= maxRep; n++ {
 		h.enumRep1(n)
 	}
@@ -1072,4 +1135,270 @@ func vf26ReadMsg(src io.ReadSeeker) ([]byte, error) {
 		return b, nil
 	}
 	return io.ReadAll(src)
+}
+
+// ---- multi-shard local copies on the REAL engine ---------------------------------------
+//
+// The statement includes multi-shard local copies.  When the policer decides that the node
+// must keep the object it still asks the engine to drop the duplicated shard copies
+// (DeleteRedundantCopies); when that call - or anything else the policer does - leaves the
+// node without any copy, the node has dropped its local copy exactly as by Delete.  This
+// part therefore uses the real multi-shard StorageEngine as the policer's local storage:
+// a real object is written to a chosen set of shards (every non-empty set of positions in
+// the engine's order of preference for the object, incl. sets without the most preferred
+// shard - the state left by a shard that was read-only / absent at write time or by
+// evacuation), the entry comes from the real ListWithCursor, the real processObject runs
+// against a seeded placement, one GC pass runs on every shard, and then the object is
+// looked up on the node.  Oracle: gone from the node => the confirmation rules of judge().
+
+// vf26GenShardCase: whole REGULAR object under one or two REP rules (optionally an EC rule
+// next to the REP rule, which does not govern whole objects).
+func vf26GenShardCase(rng *rand.Rand) *vf26Case {
+	var c *vf26Case
+	if rng.IntN(2) == 0 {
+		c = &vf26Case{Kind: "rep1", ECRuleIdx: -1, ECPartIdx: -1, InNetmap: true, Flavor: rng.IntN(6)}
+		n := 1 + rng.IntN(5)
+		pos := rng.IntN(n+2) - 1
+		if pos >= n {
+			pos = n - 1 // the tail position (local node least preferred) twice as likely
+		}
+		list := make([]int, n)
+		next := 1
+		for i := range list {
+			if i != pos {
+				list[i] = next
+				next++
+			}
+		}
+		if pos < 0 {
+			c.InNetmap = rng.IntN(2) == 0
+		}
+		for id := 1; id < vf26MaxID; id++ {
+			c.st[id] = vf26St(rng.IntN(int(vf26NumSt)))
+		}
+		c.Lists = [][]int{list}
+		c.Rep = []uint{uint(1 + rng.IntN(n))}
+	} else {
+		for {
+			c = vf26GenTwoRules(rng)
+			if c.ECRuleIdx < 0 {
+				break
+			}
+		}
+	}
+	c.typ = object.TypeRegular
+	return c
+}
+
+type vf26ShardItem struct {
+	c     *vf26Case
+	w     *vf26World
+	obj   *object.Object
+	addr  oid.Address
+	entry objectcore.AddressWithAttributes
+	want  []string // IDs of the shards the object was written to
+}
+
+func (h *vf26Harness) gcAllShards() {
+	for pass := 0; pass < 2; pass++ { // objects, then emptied containers
+		for _, sh := range h.eng.Verif26SortedShards(oid.ID{}) {
+			sh.Verif26RunGC()
+		}
+	}
+}
+
+// shardBatch runs k cases whose objects are held by the shards at the positions of mask.
+func (h *vf26Harness) shardBatch(n, mask, k, batchIdx int) {
+	r, t := h.r, h.t
+	ctx := context.Background()
+	var ranks []int
+	for i := 0; i < n; i++ {
+		if mask&(1<<i) != 0 {
+			ranks = append(ranks, i)
+		}
+	}
+	items := make([]*vf26ShardItem, 0, k)
+	byAddr := map[oid.Address]*vf26ShardItem{}
+	for i := 0; i < k; i++ {
+		rng := r.Rand("shards", batchIdx*4096+i)
+		c := vf26GenShardCase(rng)
+		c.NShards, c.HolderRanks, c.Shards, c.PutMode = n, ranks, len(ranks), "shard-put"
+		o := verifkit.NewObject(rng, h.cnr, verifkit.RandUser(rng), 8+rng.IntN(40))
+		it := &vf26ShardItem{c: c, obj: o, addr: verifkit.Addr(o)}
+		sorted := h.eng.Verif26SortedShards(it.addr.Object())
+		if len(sorted) != n {
+			t.Fatalf("harness: engine has %d shards, want %d", len(sorted), n)
+		}
+		first := 0
+		if i == 0 && ranks[0] > 0 {
+			// the natural way to this state: the more preferred shards are read-only when the
+			// object arrives through the engine
+			c.PutMode = "engine-put/preferred-shards-read-only"
+			for j := 0; j < ranks[0]; j++ {
+				if err := h.eng.SetShardMode(sorted[j].ID(), mode.ReadOnly, false); err != nil {
+					t.Fatalf("harness: set read-only: %v", err)
+				}
+			}
+			err := h.eng.Put(ctx, o, nil)
+			for j := 0; j < ranks[0]; j++ {
+				if err := h.eng.SetShardMode(sorted[j].ID(), mode.ReadWrite, false); err != nil {
+					t.Fatalf("harness: set read-write: %v", err)
+				}
+			}
+			if err != nil {
+				t.Fatalf("harness: engine put with read-only shards: %v", err)
+			}
+			first = 1
+			r.Count("shard_cases_written_through_engine_with_read_only_shards", 1)
+		}
+		for _, rk := range ranks[first:] {
+			if err := sorted[rk].Put(o, nil); err != nil {
+				t.Fatalf("harness: shard put: %v", err)
+			}
+		}
+		for j, sh := range sorted {
+			ex, err := sh.Exists(it.addr, false)
+			if err != nil {
+				t.Fatalf("harness: shard exists: %v", err)
+			}
+			if ex != vf26Contains(ranks, j) {
+				t.Fatalf("harness: object on shard position %d = %v, holder positions %v (%s)", j, ex, ranks, c.PutMode)
+			}
+			if ex {
+				it.want = append(it.want, sh.ID().String())
+			}
+		}
+		items = append(items, it)
+		byAddr[it.addr] = it
+	}
+
+	// the entries the policer works on: the engine's real listing, in pages
+	var cursor *engine.Cursor
+	listed := 0
+	for {
+		page, next, err := h.eng.ListWithCursor(ctx, 7, cursor, iec.AttributeRuleIdx, iec.AttributePartIdx, object.FilterParentID)
+		if err != nil {
+			if errors.Is(err, engine.ErrEndOfListing) {
+				break
+			}
+			t.Fatalf("harness: engine listing: %v", err)
+		}
+		for _, e := range page {
+			if it, ok := byAddr[e.Address]; ok && it.entry.Address == (oid.Address{}) {
+				it.entry = e
+				listed++
+			}
+		}
+		cursor = next
+	}
+	if listed != len(items) {
+		r.Inconclusive(fmt.Sprintf("multi-shard part: the engine listed %d of %d stored objects", listed, len(items)))
+		return
+	}
+
+	for _, it := range items {
+		if len(it.entry.ShardIDs) != len(it.want) {
+			r.Count("shard_listing_differs_from_holders(not judged here)", 1)
+		}
+		it.w = &vf26World{c: it.c, obj: it.addr}
+		h.w = it.w
+		r.Eval(1)
+		entry := it.entry
+		if r.Guard(it.c, func() { h.p.processObject(ctx, entry) }) {
+			it.c.finish()
+			it.w = nil
+		}
+	}
+
+	h.gcAllShards()
+
+	for _, it := range items {
+		if it.w == nil {
+			continue
+		}
+		h.w = it.w
+		left := 0
+		for _, sh := range h.eng.Verif26SortedShards(it.addr.Object()) {
+			if ex, err := sh.Exists(it.addr, false); err == nil && ex {
+				left++
+			}
+		}
+		_, err := h.eng.Head(ctx, it.addr, false)
+		gone := err != nil
+		if gone && !errors.Is(err, apistatus.ErrObjectNotFound) && !errors.Is(err, apistatus.ErrObjectAlreadyRemoved) {
+			r.Inconclusive(fmt.Sprintf("multi-shard part: engine Head failed unexpectedly: %v", err))
+			return
+		}
+		if gone != (left == 0) {
+			r.Count("shard_head_and_exists_disagree(not judged here)", 1)
+		}
+		it.w.mu.Lock()
+		dels, dedups := len(it.w.deletes), len(it.w.redundant)
+		if gone && dels == 0 {
+			it.w.lostVia = "nothing"
+			if dedups > 0 {
+				it.w.lostVia = "DeleteRedundantCopies"
+			}
+		}
+		it.w.mu.Unlock()
+		r.Count("shard_cases", 1)
+		if len(ranks) > 1 {
+			r.Count("shard_cases_multi_copy", 1)
+			if dedups > 0 {
+				r.Count("shard_dedup_with_holders_"+vf26RankClass(ranks), 1)
+				r.Count("shard_dedup_copies_left_"+strconv.Itoa(left), 1)
+				if !gone {
+					r.Count("shard_dedup_kept_a_copy", 1)
+				}
+			}
+		}
+		switch {
+		case dels > 0 && gone:
+			r.Count("shard_cases_removed_by_delete", 1)
+		case dels > 0:
+			r.Count("shard_cases_delete_called_but_still_readable", 1)
+		case gone:
+			r.Count("shard_cases_gone_without_delete", 1)
+		default:
+			r.Count("shard_cases_kept", 1)
+		}
+		r.Seen("shard_holder_positions_seen", fmt.Sprintf("%d:%v", n, ranks))
+		h.judge(it.c, it.w, it.entry)
+		if err := h.eng.Drop(ctx, it.addr); err != nil {
+			t.Fatalf("harness: engine drop: %v", err)
+		}
+	}
+	h.gcAllShards()
+}
+
+func vf26RankClass(ranks []int) string {
+	if ranks[0] == 0 {
+		return "including_most_preferred_shard"
+	}
+	return "excluding_most_preferred_shard"
+}
+
+func TestVerif_C26_Shards(t *testing.T) {
+	r := verifkit.Start(t, "C26", "exploration")
+	defer r.Finish()
+	maxShards, perSet := r.Pick(4, 5), r.Pick(8, 40)
+	r.SetRule(fmt.Sprintf("real StorageEngine with 2..%d shards as the policer's local storage; for EVERY non-empty set of shard positions (in the engine's order of preference for the object) "+
+		"%d fresh REGULAR objects are stored on exactly these shards (first case of a set without the most preferred shard: through engine.Put while the more preferred shards are read-only), "+
+		"listed by the real ListWithCursor, and processed by the real processObject against a seeded placement (one REP rule, REP+REP, REP+EC; 6 remote behaviours); "+
+		"after a GC pass on every shard the object is looked up on the node; distinct = different (placement, behaviour vector, engine size, holder positions)", maxShards, perSet))
+	r.Assume("multi-shard part: whole REGULAR objects only (the policer skips shard de-duplication for TOMBSTONE/LOCK/LINK and never reaches it for EC parts); shard modes are read-write while the policer runs")
+	batch := 0
+	for n := 2; n <= maxShards; n++ {
+		h := vf26NewHarness(t, r, n)
+		for mask := 1; mask < 1<<n; mask++ {
+			h.shardBatch(n, mask, perSet, batch)
+			batch++
+		}
+	}
+	if r.Counter("shard_dedup_with_holders_excluding_most_preferred_shard") == 0 || r.Counter("shard_dedup_with_holders_including_most_preferred_shard") == 0 {
+		r.Inconclusive("multi-shard part: the policer never asked the engine to drop duplicated shard copies for both kinds of holder sets")
+	}
+	if r.Counter("shard_dedup_kept_a_copy") == 0 || r.Counter("shard_cases_removed_by_delete") == 0 {
+		r.Inconclusive("multi-shard part: neither a kept de-duplicated copy nor a removal by Delete was observed on the real engine")
+	}
 }
